@@ -160,7 +160,7 @@ def check(run):
         if len(allowed) > 1:
             dist["nondeterministic_cases"] += 1
         seen = set()
-        for r in range(reps):
+        for r in range(reps if len(allowed) > 1 or not quick else 2):
             delay = str((r + len(prog)) % 4)
             out = ask("drv %s %s %s %s" % (table, cs, prog, delay))
             run.count(); dist["driver_runs"] += 1
